@@ -163,10 +163,11 @@ def run() -> int:
 EXTENDS GheObject
 c_Heights == {{"h1", "h2", "h3"}}
 c_Fixed == {tla(FIXED_OBJ)}
+c_Variants == {{"plain", "radius", "family"}}
 ====
 """
-    consts = f"CONSTANTS\n Heights <- c_Heights\n MaxLen = {maxlen}\n Fixed <- c_Fixed\n"
-    cfg = "INIT Init\nNEXT Next\nCHECK_DEADLOCK FALSE\n" + consts + "INVARIANT SimIsFunctionOfArgs\n"
+    consts = f"CONSTANTS\n Heights <- c_Heights\n MaxLen = {maxlen}\n Fixed <- c_Fixed\n Variants <- c_Variants\n"
+    cfg = "INIT Init\nNEXT Next\nCHECK_DEADLOCK FALSE\n" + consts + "INVARIANT SimIsFunctionOfArgs\nINVARIANT TableMatchesFamily\n"
     res = run_tlc("MC_GheObject", cfg, extra_modules={"MC_GheObject.tla": mod}, want_prints=False, coverage=True)
     chk.add_tlc(res)
     if res.violated:
@@ -180,9 +181,9 @@ c_Fixed == {tla(FIXED_OBJ)}
     cap = 220 if t == "quick" else 2500
     if len(ohist) > cap:
         ohist = rnd.sample(ohist, cap)
-    for k, h in enumerate(ohist):
-        h["rb_mismatch"] = k % 3 == 1      # every third history: the stored g-function belongs to another borehole radius (radius correction on every grab)
-        h["multi_gf"] = k % 3 == 2         # every third history: the object starts with a two-height g-function family (interpolation table in use before compute_g)
+    for h in ohist:                        # how the object was built is part of the model's state (GheObject.tla: variant)
+        h["rb_mismatch"] = h["variant"] == "radius"
+        h["multi_gf"] = h["variant"] == "family"
     for h, r in zip(ohist, parallel_map(_exec_object_history, ohist)):
         chk.nontrivial.add(("obj", tuple(map(tuple, h["hist"]))))
         if r.get("bad"):
@@ -343,6 +344,8 @@ def _exec_object_history(item):
                     g.simulate(TimestepType.HOURLY)
                 elif op == "size_hybrid":
                     g.size(TimestepType.HYBRID)
+                elif op == "size_hourly":
+                    g.size(TimestepType.HOURLY)
                 elif op == "compute_g":
                     g.compute_g_functions()
                 elif op == "set_h":
@@ -360,9 +363,9 @@ def _exec_object_history(item):
             hcell = item["hp"][1]
             if isinstance(hcell, str):
                 hsaw = HEIGHTS.get(hcell)   # "nominal" -> None: keep the constructor's height
-            if last == "size_hybrid":
+            if last in ("size_hybrid", "size_hourly"):
                 _fresh_sts(ref)
-                ref.size(TimestepType.HYBRID)
+                ref.size(TimestepType.HYBRID if last == "size_hybrid" else TimestepType.HOURLY)
             else:
                 if hsaw is not None:
                     ref.bhe.b.H = hsaw
@@ -370,7 +373,7 @@ def _exec_object_history(item):
                     r2 = _mk_ghe(gf_rb=rb, gf_heights=gh)
                     if hcell[1] == "triple":
                         r2.compute_g_functions()
-                    r2.size(TimestepType.HYBRID)
+                    r2.size(TimestepType.HYBRID if hcell[0] == "root" else TimestepType.HOURLY)
                     ref.bhe.b.H = r2.bhe.b.H
                 _fresh_sts(ref)
                 ref.simulate(TimestepType.HOURLY if last == "sim_hourly" else TimestepType.HYBRID)
